@@ -1,15 +1,13 @@
 //! Verification harness: drives the real Laythe code in-process and speaks the same line
 //! protocols as the Lean driver (`/verif/lean/Driver`).
-mod chanq;
-mod dump;
-mod peephole;
-mod run;
+use vharness::{chanq, dump, peephole, run};
 
 fn main() {
   let args: Vec<String> = std::env::args().collect();
   let code = match args.get(1).map(|s| s.as_str()) {
     Some("chanq") => chanq::main(),
     Some("run") => run::main(&args[2..]),
+    Some("runbatch") => run::main_batch(),
     Some("peephole") => peephole::main(),
     Some("dump") => dump::main(&args[2..]),
     _ => {
